@@ -21,13 +21,13 @@ pub static PROP: PropDef = PropDef {
     check,
     rule: "tape -> either a resize case (13 pixel types, all size classes so that component counts cover every residue of the 32/16/8/4 \
            vertical chunking and kernel lengths every residue of the 16/8/5/4/2 horizontal chunking, destination heights 1..9 for the 4-row \
-           blocks, crops with non-zero first row/column, built-in and custom filters reaching other fixed-point precisions, alpha on/off) \
+           blocks, crops with non-zero first row/column, built-in and custom filters reaching other fixed-point precisions, alpha on/off; a small share of F32 images carries sparse +-inf / NaN samples, where non-finite results must coincide) \
            or a direct MulDiv call (multiply/divide x two-image/in-place on the 6 alpha types); each case runs on None and on every supported \
            SIMD extension with the same input. Oracle: integers byte-identical (16-bit alpha division: colour +-1, alpha identical); floats within \
            2 ulp + 2^-36 of the largest source magnitude. Non-trivial = a SIMD kernel exists for the type and a window of >= 2 taps (or an alpha \
            kernel) ran; distinct = (op, type, sizes, crop classes, algorithm, extension).",
     assumptions: &[
-        "custom kernels are restricted to normalised windows with sum|w| < 4 (the documented head-room); beyond it the portable and SIMD code saturate differently",
+        "custom kernels beyond the documented head-room (sum|w| >= 4) are compared only when no fixed-point accumulator can overflow (255*sum|q| + round <= i32::MAX for 8-bit, the i64 analogue for 16-bit): then every back-end clamps the same exact value",
         "float alpha images use moderate magnitudes; non-finite values are never generated",
     ],
     exhaustive: not_exhaustive,
@@ -38,6 +38,7 @@ fn profile() -> Profile {
     p.allow_custom = true;
     p.exts = vec![CpuExtensions::None];
     p.size_weights = [16, 90, 110, 30, 10];
+    p.huge_max = 131_075;
     p
 }
 
@@ -117,6 +118,83 @@ pub fn call_abs_sum(spec: &ResizeSpec) -> Option<(f64, usize)> {
     Some((worst, taps))
 }
 
+/// Can the fixed-point accumulators of this geometry overflow? (u8: i32, u16: i64.)  None = cannot tell.
+fn acc_safe_axis(c: Comp, in_size: u32, in0: f64, in1: f64, out: u32, f: fr::FilterType, adaptive: bool) -> Option<bool> {
+    let support = match f {
+        fr::FilterType::Custom(cf) => cf.support(),
+        _ => 3.0,
+    };
+    let scale = ((in1 - in0) / out.max(1) as f64).max(1.0);
+    if !(scale.is_finite()) || (2.0 * support * scale + 3.0) * out as f64 > 8.0e6 {
+        return None;
+    }
+    let d = catch(|| fr::verif::coefficients(in_size, in0, in1, out, f, adaptive, c == Comp::U8, c == Comp::U16)).ok()?;
+    match c {
+        Comp::U8 => {
+            let (p, chunks) = d.precision16?;
+            // the library documents (debug_assert + unit test) that its SIMD code needs precision >= 4
+            if p < 4 {
+                return Some(false);
+            }
+            let round = 1i64 << (p - 1);
+            Some(chunks.iter().all(|(_, q)| {
+                let s: i64 = q.iter().map(|x| (*x as i64).abs()).sum();
+                255 * s + round <= i32::MAX as i64
+            }))
+        }
+        Comp::U16 => {
+            let (p, chunks) = d.precision32?;
+            if p < 4 {
+                return Some(false);
+            }
+            let round = 1i128 << (p - 1);
+            Some(chunks.iter().all(|(_, q)| {
+                let s: i128 = q.iter().map(|x| (*x as i128).abs()).sum();
+                65535 * s + round <= i64::MAX as i128
+            }))
+        }
+        _ => Some(true),
+    }
+}
+
+/// Accumulator safety of every convolution the call performs.
+pub fn call_acc_safe(spec: &ResizeSpec) -> Option<bool> {
+    let (l, t, cw, ch) = spec.crop_box();
+    let f = spec.alg.filter()?.to_fr();
+    let c = img::comp(spec.pt);
+    let mut ok = true;
+    let mut add = |r: Option<bool>| -> Option<()> {
+        ok &= r?;
+        Some(())
+    };
+    match spec.alg {
+        AlgSpec::Nearest => {}
+        AlgSpec::Conv(_) | AlgSpec::Interp(_) => {
+            let adaptive = matches!(spec.alg, AlgSpec::Conv(_));
+            add(acc_safe_axis(c, spec.sw, l, l + cw, spec.dw, f, adaptive))?;
+            add(acc_safe_axis(c, spec.sh, t, t + ch, spec.dh, f, adaptive))?;
+        }
+        AlgSpec::Super(_, m) => {
+            if spec.dw == 0 || spec.dh == 0 || m == 0 {
+                return None;
+            }
+            let factor = (cw / spec.dw as f64).min(ch / spec.dh as f64) / m as f64;
+            if factor > 1.2 {
+                let tw = (cw / factor).round() as u32;
+                let th = (ch / factor).round() as u32;
+                for (a, b) in [(tw, th), (tw + 1, th + 1), (tw.saturating_sub(1).max(1), th.saturating_sub(1).max(1))] {
+                    add(acc_safe_axis(c, a, 0.0, a as f64, spec.dw, f, true))?;
+                    add(acc_safe_axis(c, b, 0.0, b as f64, spec.dh, f, true))?;
+                }
+            } else {
+                add(acc_safe_axis(c, spec.sw, l, l + cw, spec.dw, f, true))?;
+                add(acc_safe_axis(c, spec.sh, t, t + ch, spec.dh, f, true))?;
+            }
+        }
+    }
+    Some(ok)
+}
+
 pub fn has_simd_kernel(pt: fr::PixelType) -> bool {
     pt != fr::PixelType::I32
 }
@@ -130,6 +208,20 @@ pub fn compare_backends(
     alpha_div: bool,
     mmax: f64,
 ) -> Option<String> {
+    compare_backends_amp(pt, a, b, alpha_div, mmax, 2.0)
+}
+
+/// `amp` = largest sum|w| of a normalised window of the call (>= 1): the factor by which a pass can
+/// amplify a one-ulp difference of its input.
+pub fn compare_backends_amp(
+    pt: fr::PixelType,
+    a: &[u8],
+    b: &[u8],
+    alpha_div: bool,
+    mmax: f64,
+    amp: f64,
+) -> Option<String> {
+    let amp2 = amp.max(1.0) * amp.max(1.0);
     let c = img::comp(pt);
     let nch = img::channels(pt);
     match c {
@@ -170,18 +262,30 @@ pub fn compare_backends(
             for i in 0..n {
                 let x = img::get_comp(c, a, i);
                 let y = img::get_comp(c, b, i);
-                if x == y {
+                if x == y || (x.is_nan() && y.is_nan()) {
                     continue;
+                }
+                if !x.is_finite() || !y.is_finite() {
+                    return Some(format!(
+                        "component {} (pixel {}, channel {}): portable {:?} vs SIMD {:?} (non-finite results must agree)",
+                        i,
+                        i / nch,
+                        i % nch,
+                        x,
+                        y
+                    ));
                 }
                 // 2 ulp of the result, plus: a first-pass sample that sits on an f32 rounding boundary may round
                 // differently after re-association (one ulp at the magnitude of the intermediate image, at most
                 // about 2*mmax), which the second pass passes on with sum|w| <= 2
-                let mut tol = 2f64.powi(-22) * x.abs().max(y.abs()) + 2f64.powi(-21) * mmax + 1e-44;
+                let mut tol = 2f64.powi(-22) * x.abs().max(y.abs()) + 2f64.powi(-23) * amp2 * mmax + 1e-44;
                 if alpha_div && img::has_alpha(pt) && i % nch != nch - 1 {
                     // colour = premultiplied / alpha: relative errors add, and absolute noise is amplified by 1/alpha
                     let ai = i - i % nch + nch - 1;
                     let al = img::get_comp(c, a, ai).abs().min(img::get_comp(c, b, ai).abs());
-                    tol = 2f64.powi(-20) * x.abs().max(y.abs()) + 2f64.powi(-19) * mmax * (1.0f64).max(1.0 / al.max(1e-30)) + 1e-44;
+                    // colour = premultiplied / alpha with absolute errors E on both: |d(c/a)| <= E (1 + |c/a|) / |a|
+                    let e = 2f64.powi(-21) * amp2 * mmax;
+                    tol = 2f64.powi(-20) * x.abs().max(y.abs()) + e * (1.0 + x.abs().max(y.abs())) / al.max(1e-300) + e + 1e-44;
                 }
                 if !((x - y).abs() <= tol) {
                     return Some(format!(
@@ -201,7 +305,7 @@ pub fn compare_backends(
 }
 
 fn max_abs(pt: fr::PixelType, bytes: &[u8]) -> f64 {
-    img::comps_f64(pt, bytes).iter().fold(0.0f64, |m, v| m.max(v.abs()))
+    img::comps_f64(pt, bytes).iter().filter(|v| v.is_finite()).fold(0.0f64, |m, v| m.max(v.abs()))
 }
 
 fn check(tape: &[u8], ctx: &Ctx) -> Outcome {
@@ -213,18 +317,36 @@ fn check(tape: &[u8], ctx: &Ctx) -> Outcome {
     if img::comp(spec.pt) == Comp::F32 && img::has_alpha(spec.pt) && spec.use_alpha && spec.content.class == 9 {
         spec.content.class = 1;
     }
+    let nonfinite = img::comp(spec.pt) == Comp::F32 && !(spec.use_alpha && img::has_alpha(spec.pt)) && t.chance(20);
+    if nonfinite {
+        spec.content.class = img::CONTENT_NONFINITE;
+    }
     let mut o = Outcome::new(spec.desc());
-    // custom kernels: stay inside the documented head-room
+    // custom kernels: see the domain rule below
     let custom = matches!(spec.alg.filter(), Some(FilterSpec::Custom(_)));
     let sums = match catch(|| call_abs_sum(&spec)) {
         Ok(s) => s,
         Err(_) => None,
     };
+    let amp = sums.map(|(s, _)| s).unwrap_or(2.0).max(2.0);
     let taps = match sums {
         Some((s, n)) => {
-            if custom && !(s < 4.0) {
-                o.label("skipped:custom-sum>=4");
-                return o;
+            if custom {
+                // beyond the documented head-room the results must still agree as long as no fixed-point
+                // accumulator can overflow (both back-ends then clamp the same exact value)
+                if !(s < 1.0e6) {
+                    o.label("skipped:custom-sum>=1e6");
+                    return o;
+                }
+                if s >= 4.0 {
+                    match catch(|| call_acc_safe(&spec)) {
+                        Ok(Some(true)) => o.label("custom:sum>=4,accumulator-safe"),
+                        _ => {
+                            o.label("skipped:custom-accumulator-may-overflow");
+                            return o;
+                        }
+                    }
+                }
             }
             n
         }
@@ -294,7 +416,7 @@ fn check(tape: &[u8], ctx: &Ctx) -> Outcome {
             ));
             return o;
         }
-        if let Some(d) = compare_backends(spec.pt, base.dst.bytes(), r.dst.bytes(), alpha_div, mmax) {
+        if let Some(d) = compare_backends_amp(spec.pt, base.dst.bytes(), r.dst.bytes(), alpha_div, mmax, amp) {
             if alpha_div && img::comp(spec.pt) == Comp::U16 && ctx.is_known("F8-u16-simd-divide") {
                 o.known("F8-u16-simd-divide");
                 continue;
@@ -312,6 +434,9 @@ fn check(tape: &[u8], ctx: &Ctx) -> Outcome {
     o.label(format!("dst-rows-mod4:{}", spec.dh % 4));
     if alpha_div {
         o.label("alpha-aware");
+    }
+    if nonfinite {
+        o.label("content:non-finite-sprinkle");
     }
     if ran_simd && has_simd_kernel(spec.pt) && base.result.is_ok() && !spec.is_copy() && (taps >= 2 || alpha_div) {
         let key = format!(
